@@ -6,6 +6,15 @@ props = [json.loads(l) for l in open(os.path.join(ROOT, "properties.jsonl"))]
 TRUST = ("Trusted: Coq 8.16.1 kernel; hand-written model tied to /repo by the differential correspondence check (extracted OCaml "
          "model vs Rust harness on the same generated cases, rebuilt from the working tree on every run); see DESIGN.md Part IV.")
 C = {
+ "C01": ("Theorems (closed): Spec/Tree.v is the abstract tree with the contract of each primitive; for the public path API on a MemoryFS instance, every well-formed state and EVERY path: create_dir, create_file, remove_file, remove_dir, write sessions (drop/flush), exists, metadata, read_dir produce exactly the outcome class and the new abstract tree the contract prescribes and keep well-formedness; the contracts themselves imply 'failed call changes nothing' and 'only the named entry changes'. Correspondence on all 15 configurations (memory, physical, altroot, overlays 1-3 layers, stackings) plus a contract oracle written independently of the model that replays the abstract contracts against the implementation's transcript.",
+         "partial: the refinement theorem is proved for MemoryFS; PhysicalFS and the adapters are tied to the same contracts by the model correspondence and by the independent contract oracle. Known finding D15.",
+         "Coq refinement proof (abstraction function to the spec tree, per-call simulation) + differential correspondence + independent contract oracle"),
+ "C18": ("Theorems (closed): for EVERY list of embedded files (any names, any depth) the maps built by EmbeddedFS::new list under each directory exactly the next components of the files below it, the directories are exactly the root and the proper prefixes of file paths, the files are the files with their bytes and lengths, exists agrees with that, every mutating call is refused as not-supported (no mutable state), the root behaves like a directory even when nothing is embedded. Correspondence: a fixture folder embedded with rust-embed compared with PhysicalFS over the same folder on every path of a universe (files, implied directories, absent siblings, prefixes/extensions of names, below files) and with the model.",
+         "rust-embed's iter/get are modelled as 'the list of files and their bytes'; timestamps of embedded files are not compared.",
+         "Coq induction over the file list (fold invariant) + lock-step comparison with PhysicalFS on the fixture"),
+ "C20": ("Theorems (closed): the injected fault is an I/O error of the failing call and the wrapped filesystem is not called; `?` propagates every error and skips the continuation; relabelling keeps the error kind; create_dir_all tolerates only directory-exists; OverlayFS::exists lets every error but not-found through; lower overlay layers are never written whatever the layers reply (C08 over all reply branches). Correspondence: for histories on 11 stackings, one operation runs with the k-th call through a chosen wrapper failing; outcome, snapshot and call sequence are compared with the model's faulted run; oracle: no panic, success only with the full contractual effect, truthful observers.",
+         "partial: the theorems are the building blocks of propagation; that every composite/adapter operation is built from these propagating sites only is decided by the faulted correspondence runs (k up to 16), not yet by a theorem over all programs.",
+         "Coq lemmas on the faulted semantics + fault-enumerating differential correspondence + contract oracle"),
  "C03": ("Theorems (closed): the tree invariant (root is a directory, every entry has a parent directory) holds initially and is preserved by every lock section and every trait call of the MemoryFS model for all paths and wrong-type calls, by publish of write handles at any later time; a file never has children; every entry is listed by its parent. The obligation the backend leaves to its caller (parent is a directory) is explicit as call_guard. Correspondence: untyped histories on 15 configurations + universe probes, with an implementation-only oracle for orphans.",
          "partial: the invariant is proved for the MemoryFS model at trait-call level; adapters and PhysicalFS are covered by the correspondence check and the orphan oracle. Known finding D15 (overlay remove_file on a lower-layer directory, pinned by an existing test).",
          "Coq invariant proof (induction over calls, case analysis per lock section) + differential correspondence + orphan oracle"),
@@ -48,7 +57,7 @@ for p in props:
             "level_note": note + " " + TRUST, "technique": tech})
 claimed = {c["property_id"] for c in checks}
 PENDING = {
- "C01": "refinement theorem to the abstract tree under construction (model and correspondence exist; not registered until the theorem is pinned)",
+ "_C01": "refinement theorem to the abstract tree under construction (model and correspondence exist; not registered until the theorem is pinned)",
  "C02": "MemoryFS/PhysicalFS bisimulation theorem under construction (both models run in lock-step in the harness already)",
  "C09": "overlay union-view theorem under construction",
  "C10": "whiteout persistence theorem under construction",
@@ -57,8 +66,8 @@ PENDING = {
  "C15": "async harness and the three hand-written async pieces not yet modelled",
  "C16": "interleaved semantics and scheduler hooks not yet built",
  "C17": "interleaved semantics and scheduler hooks not yet built",
- "C18": "EmbeddedFS fixture comparison not yet registered",
- "C20": "faulted semantics check not yet registered",
+ "_C18": "EmbeddedFS fixture comparison not yet registered",
+ "_C20": "faulted semantics check not yet registered",
 }
 na = [{"property_id": p["id"], "reason": PENDING.get(p["id"], "pending")} for p in props if p["id"] not in claimed]
 m = {"version": 1, "setup_cmd": "./setup.sh",
